@@ -320,6 +320,77 @@ def span_jobs():
                        [(None, None, {}, a[0], a[1], a[2]), (None, None, {}, b[0], b[1], b[2])])
 
 
+def other_axis_jobs():
+    """The count of the axis the flow does not wrap at (LeftToRight + rows, TopToBottom + columns) is given too: it does
+    not change the cells; and per-row/column settings on children of a form layout are not supported: diagnosed."""
+    for flow, main, other in (("LeftToRight", "columns", "rows"), ("TopToBottom", "rows", "columns")):
+        for count in (None, 2):
+            for oc in (1, 2, 5):
+                yield ("other-axis", flow, main, count, other, oc)
+
+
+def judge_other_axis(t, vd, cid, flow, main, count, other, oc):
+    lay = qml.Obj("QGridLayout", "lay")
+    if flow == "TopToBottom":
+        lay.add(qml.B("flow", "QGridLayout.TopToBottom"))
+    if count is not None:
+        lay.add(qml.B(main, str(count)))
+    lay.add(qml.B(other, str(oc)))
+    for i in range(5):
+        lay.add(child(i))
+    src = qml.render(qml.Obj("QWidget", "root", [lay]), oneline=True)
+    case = {"id": cid, "family": "other-axis", "source": src, "other_axis": [flow, main, count, other, oc]}
+    r = vd.job({"id": cid, "source": src, "modes": ["generate"]})
+    if "modes" not in r or r["modes"]["generate"].get("status") == "panic":
+        t.lost.append({"id": cid})
+        return
+    g = r["modes"]["generate"]
+    t.inc("documents")
+    t.inc("family:other-axis")
+    t.distinct.add(src)
+    if not vc.accepted(g, r.get("has_syntax_error")):
+        t.violation("rejected-a-valid-layout", dict(case, diagnostics=g.get("diagnostics")))
+        return
+    cur = Cursor(flow, count)
+    e = uiread.find_object(uiread.parse(g["ui"]), "lay")
+    for i, it in enumerate(e.findall("item")):
+        want = cur.place(None, None)
+        t.inc("cells_checked")
+        if (it.attrs.get("row"), it.attrs.get("column")) != (str(want[0]), str(want[1])):
+            t.violation(f"cell:{flow}", dict(case, child=i, expected=list(want), got=[it.attrs.get("row"), it.attrs.get("column")]))
+            return
+
+
+def form_settings_jobs():
+    for name in ("rowStretch", "columnStretch", "rowMinimumHeight", "columnMinimumWidth"):
+        for pos in (0, 1, 2):
+            yield (name, pos)
+
+
+def judge_form_setting(t, vd, cid, name, pos):
+    lay = qml.Obj("QFormLayout", "lay")
+    for i in range(3):
+        lay.add(child(i, extra=[(name, 2)] if i == pos else []))
+    src = qml.render(qml.Obj("QWidget", "root", [lay]), oneline=True)
+    case = {"id": cid, "family": "form-settings", "source": src, "form_setting": [name, pos]}
+    r = vd.job({"id": cid, "source": src, "modes": ["generate"]})
+    if "modes" not in r or r["modes"]["generate"].get("status") == "panic":
+        t.lost.append({"id": cid})
+        return
+    g = r["modes"]["generate"]
+    t.inc("documents")
+    t.inc("family:form-settings")
+    t.distinct.add(src)
+    if vc.accepted(g, r.get("has_syntax_error")):
+        e = uiread.find_object(uiread.parse(g["ui"]), "lay")
+        # accepted: then the setting must not surface as an attribute uic does not know for a form layout
+        for _n, attr, _a, _d in SETTINGS:
+            if attr in e.attrs:
+                t.violation("form-layout-array-attribute", dict(case, attribute=attr))
+                return
+        t.violation("accepted:setting-without-effect-on-a-form-layout", case)
+
+
 def item_kind_jobs():
     """Spans and alignment are copied to the item whatever the item holds (widget, nested layout, spacer)."""
     for lay in ("QGridLayout", "QFormLayout", "QVBoxLayout", "QHBoxLayout"):
@@ -439,6 +510,12 @@ def shard_work(shard, nshards, payload):
         if k % nshards != shard:
             continue
         judge_box(t, vd, f"box/{k}", cls, attr, seq)
+    for k, (_f, flow, main, count, other, oc) in enumerate(other_axis_jobs()):
+        if k % nshards == shard:
+            judge_other_axis(t, vd, f"other-axis/{k}", flow, main, count, other, oc)
+    for k, (name, pos) in enumerate(form_settings_jobs()):
+        if k % nshards == shard:
+            judge_form_setting(t, vd, f"form-setting/{k}", name, pos)
     for k, (lay_cls, kind, al, span) in enumerate(item_kind_jobs()):
         if k % nshards != shard:
             continue
@@ -478,7 +555,11 @@ def replay(path):
     case = r["case"]
     vd = vc.VDrive()
     t = vc.Tally()
-    if "item_kind" in case:
+    if "other_axis" in case:
+        judge_other_axis(t, vd, 0, *case["other_axis"])
+    elif "form_setting" in case:
+        judge_form_setting(t, vd, 0, *case["form_setting"])
+    elif "item_kind" in case:
         lay_cls, kind, al, span = case["item_kind"]
         judge_item_kind(t, vd, 0, lay_cls, kind, al, tuple(span))
     elif "box" in case:
